@@ -546,10 +546,9 @@ def run(p, led, tier):
                 w = _derivation(m, c.args[0], params)
                 if w:
                     probs.append(f"the text is rewritten before it is handed to the parser helper ({w})")
-            cached = [d for d in g.node.decorator_list if any(k in src(d) for k in ("cache", "memo"))]
-            mutators = [ci for lst in p.classes.values() for ci in lst if ci.module.rel == M and "NodeTransformer" in ci.bases]
-            if cached and mutators:
-                probs.append(f"`{src(cached[0])}` shares one parsed tree between calls, pathways and instances while `{mutators[0].name}` rewrites trees in place: "
+            cached = [x for x in rewritten_after_cache(p, res, M) if x[0] is m]
+            if cached:
+                probs.append(f"`{src(cached[0][3])}` shares one parsed tree between calls, pathways and instances while `{cached[0][4]}` rewrites the tree it got from the cache in place: "
                              "after the logic pathway has seen a text, other pathways evaluate a different expression than the one written")
             if probs:
                 led.fail("C02-R3", key, where(m, c), "; ".join(probs), witness="metabolize('true + 1', KREBS_CYCLE) then metabolize('true + 1', GLYCOLYSIS) → 2, where Python raises NameError" if cached else None)
@@ -578,6 +577,50 @@ def run(p, led, tier):
 
 
 # ----------------------------------------------------------------------
+def rewritten_after_cache(p, res, M):
+    """[(caller, call, cached helper, decorator, transformer class)]: a tree obtained from a memoised parse helper is handed to
+    a NodeTransformer of the module by the *caller* — rewritten in place after it came out of the cache, so the cache now
+    serves the rewritten tree.  (Rewriting inside the memoised helper, keyed on whether to rewrite, or on a copy, is fine.)"""
+    rewriters = {ci.name for lst in p.classes.values() for ci in lst if ci.module.rel == M and "NodeTransformer" in ci.bases}
+    out = []
+    if not rewriters:
+        return out
+    helpers = {}
+    for f in p.all_funcs:
+        if f.module.rel != M:
+            continue
+        cached = [d for d in getattr(f.node, "decorator_list", []) if any(k in src(d) for k in ("cache", "memo"))]
+        if cached and any(isinstance(n, ast.Call) and dotted(n.func) == "ast.parse" for n in walk_no_nested(f.node)):
+            helpers[f.key] = (f, cached[0])
+    # thin wrappers that return the helper's result unchanged count as the helper
+    grew = True
+    while grew:
+        grew = False
+        for f in p.all_funcs:
+            if f.module.rel != M or f.key in helpers:
+                continue
+            rets = [n for n in walk_no_nested(f.node) if isinstance(n, ast.Return) and n.value is not None]
+            if rets and all(isinstance(r.value, ast.Call) and any(t.key in helpers for t in res.resolve_call(f, r.value)) for r in rets):
+                helpers[f.key] = (f, helpers[next(t.key for t in res.resolve_call(f, rets[0].value) if t.key in helpers)][1])
+                grew = True
+    for f in p.all_funcs:
+        if f.module.rel != M or f.key in helpers:
+            continue
+        from_cache = set()
+        for n in ast.walk(f.node):
+            if isinstance(n, ast.Assign) and isinstance(n.value, ast.Call) and any(t.key in helpers for t in res.resolve_call(f, n.value)):
+                from_cache |= {t.id for t in n.targets if isinstance(t, ast.Name)}
+        for n in ast.walk(f.node):
+            if isinstance(n, ast.Call) and isinstance(n.func, ast.Attribute) and n.func.attr in ("visit", "generic_visit") and isinstance(n.func.value, ast.Call) \
+                    and (dotted(n.func.value.func) or "").split(".")[-1] in rewriters and n.args:
+                a = n.args[0]
+                direct = isinstance(a, ast.Call) and any(t.key in helpers for t in res.resolve_call(f, a))
+                if direct or (isinstance(a, ast.Name) and a.id in from_cache):
+                    hk = next(iter(helpers.values()))
+                    out.append((f, n, hk[0], hk[1], (dotted(n.func.value.func) or "").split(".")[-1]))
+    return out
+
+
 def _safe_function_names(p, mito):
     out = []
     for e in table_entries(p, mito, "SAFE_FUNCTIONS"):
